@@ -2,9 +2,10 @@ package props
 
 import (
 	"crypto"
+	"go/token"
+	"golang.org/x/tools/go/ssa"
 	"math"
 	"math/big"
-	"golang.org/x/tools/go/ssa"
 
 	"verif/checker/internal/ana"
 )
@@ -47,7 +48,13 @@ func runC11(c *Ctx) {
 
 	// ---- float-to-uint
 	nConv := 0
-	for _, rf := range append([]*ssa.Function{fn}, fn.AnonFuncs...) {
+	convFns := append([]*ssa.Function{fn}, fn.AnonFuncs...)
+	for _, ci := range ana.Calls(fn) { // a helper of Mine that computes the zero count is part of the rule's scope
+		if h := ana.StaticRepoCallee(ci.Common()); h != nil && h.Pkg == fn.Pkg {
+			convFns = append(convFns, h)
+		}
+	}
+	for _, rf := range convFns {
 		rb := ana.NewBuilder(c.P, rf)
 		for _, blk := range rf.Blocks {
 			for _, ins := range blk.Instrs {
@@ -154,6 +161,52 @@ func runC11(c *Ctx) {
 						}
 						if !isIn {
 							okLoop = false
+						}
+					}
+				}
+			}
+		}
+		if !(okLoop && inc) {
+			// the estimate and its exact correction may live in a helper: z := helper(len(data)+8, target)
+			if st := singleStoreTo(zeroCell); st != nil {
+				if call, isCall := st.Val.(*ssa.Call); isCall {
+					if h := ana.StaticRepoCallee(&call.Call); h != nil {
+						r.Fn(ana.ShortFunc(h))
+						ct := b.Of(call, st)
+						hb := boundBuilderP(c.P, stripObj(ct))
+						var exits []ana.Edge
+						var zt string
+						for _, ce := range hb.CondEdges() {
+							if bd, ok := ana.Match("bin<>=>(bin</>(call<math.Pow>(3, conv<float64>($z)), "+lenT+"), p3)", ce.Lit); ok {
+								exits = append(exits, ce.Edge)
+								zt = bd["$z"].String()
+							}
+						}
+						nRet, okRet := 0, len(exits) == 1
+						for _, e := range ana.Exits(h) {
+							if e.Panic {
+								continue
+							}
+							nRet++
+							okRet = okRet && hb.Of(e.Results[0], e.Instr).String() == zt && mustPass(h, e.Instr.Block(), exits)
+						}
+						// the returned counter only ever grows by one between tests
+						incH := false
+						if okRet {
+							for _, e := range ana.Exits(h) {
+								if phi, isPhi := e.Results[0].(*ssa.Phi); isPhi && !e.Panic {
+									for _, ev := range phi.Edges {
+										if bo, isBin := ev.(*ssa.BinOp); isBin && bo.Op == token.ADD && bo.X == ssa.Value(phi) {
+											if cst, isC := bo.Y.(*ssa.Const); isC && cst.Value != nil && cst.Value.ExactString() == "1" {
+												incH = true
+											}
+										}
+									}
+								}
+							}
+						}
+						if okRet && nRet == 1 && incH && ana.InstrDominates(st, workerGo) {
+							okLoop, inc = true, true
 						}
 					}
 				}
@@ -304,9 +357,22 @@ func runC11(c *Ctx) {
 		r.Check(okD && okN, "C11.nonce-layout.score-inputs", c.P.Pos(sc.Pos()), "Score: digest = pow.Hash(msg[:len-8]); nonce = little-endian uint64 of the last 8 bytes")
 		// Mine's digest: pow.Hash over data
 		mOK := false
+		digPat := "call<(hash.Hash).Sum>(obj(call<(crypto.Hash).New>(load(global<repo/pkg/pow.Hash>)), call<(hash.Hash).Write>(self, p2)), nil)"
 		for _, ci := range ana.Calls(fn) {
 			if ana.CalleeName(ci.Common()) == "(hash.Hash).Sum" {
-				_, mOK = ana.Match("call<(hash.Hash).Sum>(obj(call<(crypto.Hash).New>(load(global<repo/pkg/pow.Hash>)), call<(hash.Hash).Write>(self, p2)), nil)", b.CallTermAt(ci))
+				_, mOK = ana.Match(digPat, b.CallTermAt(ci))
+			}
+		}
+		if !mOK {
+			// the digest may be computed by a helper shared with Score: some variable of Mine holds exactly this term
+			for _, blk := range fn.Blocks {
+				for _, ins := range blk.Instrs {
+					if st, ok := ins.(*ssa.Store); ok {
+						if _, m := ana.Match(digPat, b.Of(st.Val, st)); m {
+							mOK = true
+						}
+					}
+				}
 			}
 		}
 		r.Check(mOK, "C11.nonce-layout.mine-digest", c.P.Pos(fn.Pos()), "Mine: digest = pow.Hash(data), the same hash function value as Score")
@@ -361,4 +427,18 @@ func runC11(c *Ctx) {
 func isFloat(t interface{ String() string }) bool {
 	s := t.String()
 	return s == "float64" || s == "float32"
+}
+
+// singleStoreTo returns the only store to a cell, or nil.
+func singleStoreTo(a *ssa.Alloc) *ssa.Store {
+	var st *ssa.Store
+	for _, ref := range *a.Referrers() {
+		if s, ok := ref.(*ssa.Store); ok && s.Addr == ssa.Value(a) {
+			if st != nil {
+				return nil
+			}
+			st = s
+		}
+	}
+	return st
 }
